@@ -328,6 +328,44 @@ def size_of(nz, n, depth=0):
     return None
 
 
+def model_sizes(P, ci):
+    """Sizes of the class's default MJCF asset (the `xml_file` default of its __init__)."""
+    from .. import mjcf
+    r = P.resolve_method(ci, "__init__")
+    a = r[1].args
+    for prm, d in zip(a.kwonlyargs, a.kw_defaults):
+        if prm.arg == "xml_file" and isinstance(d, ast.Constant) and isinstance(d.value, str):
+            return mjcf.sizes(d.value, P)
+    pos = a.posonlyargs + a.args
+    for prm, d in zip(pos[len(pos) - len(a.defaults):], a.defaults):
+        if prm.arg == "xml_file" and isinstance(d, ast.Constant) and isinstance(d.value, str):
+            return mjcf.sizes(d.value, P)
+    raise AnalysisError(f"{ci.name}.__init__: no literal default for xml_file")
+
+
+def eval_size(poly, msz):
+    """Value of a size polynomial over N(field) atoms under the model sizes (None when an atom has no documented size)."""
+    per_body = {"cinert": 10, "cvel": 6, "cfrc_ext": 6, "xpos": 3, "xipos": 3, "cacc": 6}
+    tot = 0
+    for mono, coef in poly.items():
+        v = coef
+        for atom, e in mono:
+            if not (isinstance(atom, tuple) and atom and atom[0] == "N"):
+                return None
+            if len(atom) == 2:
+                n = {"qpos": msz["nq"], "qvel": msz["nv"], "ctrl": msz["nu"]}.get(atom[1])
+                if n is None and atom[1] in per_body:
+                    n = msz["nbody"] * per_body[atom[1]]
+            else:
+                lo = int(atom[2].rstrip(":"))
+                n = (msz["nbody"] - lo) * per_body[atom[1]] if atom[1] in per_body else None
+            if n is None:
+                return None
+            v = v * n ** e
+        tot += v
+    return int(tot) if tot == int(tot) else None
+
+
 def init_size(nz, n, depth=0):
     """Size expression computed in __init__ over mj_data.<F>.size -> same atoms."""
     from ..norm import padd, patom, pmul
@@ -405,7 +443,14 @@ def check_sizes(s):
                 consts_only = a[0] == "k" and c[0] == "k"
                 mixed = (a[0] == "k") != (c[0] == "k")
                 if mixed:
-                    s.undecide("C02.4", con, f"advertised size {show_term(c)} is a literal while the parts sum to {show_term(a)} (model sizes needed)")
+                    # one side is a literal: evaluate the other with the model sizes read from the default MJCF asset
+                    msz = model_sizes(P, ci)
+                    va, vc = eval_size(total, msz), eval_size(osz, msz)
+                    if va is None or vc is None:
+                        s.undecide("C02.4", con, f"advertised size {show_term(c)} is a literal while the parts sum to {show_term(a)} (no model size for an atom)")
+                        continue
+                    s.ob("C02.4", con, va == vc, "the advertised (literal) observation size equals the summed part sizes evaluated with the sizes of the default MJCF model", loc, key="obs-size-literal",
+                         detail=f"parts: {show_term(a, 200)} = {va} with {msz}; advertised: {vc}", necessary_for="observations have the shape of the declared observation space")
                     continue
                 s.ob("C02.4", con, a == c, "the advertised observation size equals the summed sizes of the concatenated parts under this flag combination", loc, key="obs-size",
                      detail=f"parts: {show_term(a, 200)}; advertised: {show_term(c, 200)}", necessary_for="observations have the shape of the declared observation space")
